@@ -169,6 +169,10 @@ def c01_phases(ctx):
         tall += [("sha256_n24", [(2, 10), (4, 5)], [31, 32, 32767]), ("shake256_n32", [(4, 10), (4, 10)], [1023, 1024])]
     for alg, params, ctrs in tall:
         groups.append(walk_group("c01/%s/tall-%s" % (alg, "x".join(str(h) for _, h in params)), alg, params, ctrs, [100], light=True))
+    # ONE SigningKey object signing on across bottom-tree roll-overs (taller tree on top, and below)
+    for ai, alg in enumerate(ALGS if not quick else ALGS[::3]):
+        groups.append(lifetime_walk("c01/mem/%s/h5h2" % alg, alg, [(4, 5), (2, 2)], ["accept"], api="mem", start=128 - 14))
+        groups.append(lifetime_walk("c01/mem/%s/h2h5" % alg, alg, [(4, 2), (4, 5)], ["accept"], api="mem", start=128 - 36))
     # released signatures verify also when an aux buffer is involved, whatever happened to it before (scripted histories of HssAux)
     groups += aux_script_groups(ctx, "c01/auxhist", (4, 5, 7), False)
     return [{"tag": "c01", "groups": groups, "space": "complete lifetimes of H2 stacks, roll-over counters of H2/H5/H10 mixes, 1..8 levels"}]
@@ -322,6 +326,7 @@ def totality_cmds(alg, params, lay, quick, tag):
         V(M, {"mut": S, "kind": "trunc", "len": ln}, P, "sig_prefix", len=ln)
     for ln in range(0, pl):
         V(M, S, {"mut": P, "kind": "trunc", "len": ln}, "pk_prefix", len=ln)
+        cmds[-1]["pk_base"] = P          # also through a VerifyingKey object whose bytes field was shortened afterwards
     for ln in range(0, 71):
         V(M, {"rand": ln, "tag": "%s/rs/%d" % (tag, ln)}, P, "sig_random", len=ln)
         V(M, S, {"rand": ln, "tag": "%s/rp/%d" % (tag, ln)}, "pk_random", len=ln)
@@ -792,6 +797,9 @@ def api_phases(ctx, emphasis):
         if not quick or ai == 1:
             # a seed that happens to be all zero (the wiped key is recognised by its cleared parameter list, not by its seed)
             groups.append(lifetime_walk("life/%s/zero-seed" % alg, alg, [(4, 2)], cyc[ai % 4], seed="00" * N_OF[alg], api="bytes" if ai % 2 else "mem"))
+        if not quick or ai == 2:
+            # the maximum level count (eight H2 trees): the last three one-time keys of a 2^16 lifetime
+            groups.append(lifetime_walk("life/%s/8xh2-end" % alg, alg, [(4, 2), (2, 2)] * 4, cyc[(ai + 3) % 4], start=(1 << 16) - 3))
         if not quick or ai == 0:
             # a total height of 35 (seven H5 levels): the last three one-time keys of a 2^35 lifetime, then refusal
             groups.append(lifetime_walk("life/%s/7xh5-end" % alg, alg, [(2, 5)] * 7, cyc[(ai + 1) % 4], start=(1 << 35) - 3))
@@ -877,6 +885,14 @@ def c11_phases(ctx):
             cmds.append({"op": "load", "alg": alg, "mem": "mbig", "key": big, "meta": meta})
             cmds.append(cmd_sign(alg, None, "0708", api="mem", mem="mbig", meta=meta))
             cmds.append(cmd_lifetime(alg, mem="mbig", meta=meta))
+        # the boundary of the 65535-byte signature container: seven levels of W1/H5 plus one of W2/H5 need 65644 bytes
+        if n == 32:
+            for li, plist in enumerate(([(1, 5)] * 7 + [(2, 5)], [(2, 5)] + [(1, 5)] * 7, [(1, 5)] * 7 + [(4, 5)])):
+                meta = {"class": "list_at_signature_length_boundary", "i": li}
+                cmds.append(cmd_keygen(alg, plist, seed_hex("c11/bound/%s" % alg, alg), out={"sk": "bsk", "pk": "bpk"}, meta=meta))
+                bb = (bytes(8) + bytes((HT[h] << 4) + WT[w] for w, h in plist) + det_bytes("c11/bound/blob/%s" % alg, n)).hex()
+                cmds.append(cmd_sign(alg, bb, "0b0b", meta=meta, light=True))
+                cmds.append(cmd_lifetime(alg, key=bb, meta=meta))
         wiped = "00" * 8 + "ff" * 8 + "00" * n
         for plan in ("accept", "reject", "crash_before"):
             cmds.append(cmd_sign(alg, wiped, "03", meta={"class": "wiped"}, plan=plan))
@@ -1069,6 +1085,15 @@ def c13_phases(ctx):
             groups.append(walk_group("c13/e2e/%s/10-2" % alg, alg, [(8, 10), (4, 2)], [3, 4, 4095], [3], light=True))
         elif ai == 0:
             groups.append(walk_group("c13/e2e/%s/10-2" % alg, alg, [(4, 10), (4, 2)], [3, 4, 1024, 4095], [3], light=True))
+    # a TALL list (seven H10 levels, total height 70 >= 64) through the public API: lifetime query and signing do not fail
+    for alg in (("sha256_n16",) if quick else ("sha256_n16", "shake256_n16")):
+        cmds = [cmd_keygen(alg, [(1, 10)] * 7, seed_hex("c13/tall/%s" % alg, alg)),
+                cmd_lifetime(alg, key=slot("sk"), meta={"class": "tall_list"}),
+                {"op": "load", "alg": alg, "mem": "mt", "key": key_at("sk", 5)},
+                cmd_lifetime(alg, mem="mt", meta={"class": "tall_list"}),
+                cmd_sign(alg, key_at("sk", 1025), "7a11", out={"sig": "tsig"}, light=True, meta={"class": "tall_list"}),
+                cmd_verify(alg, "7a11", slot("tsig"), slot("pk"))]
+        groups.append({"name": "c13/tall/%s/7xh10" % alg, "cmds": cmds, "cost": 8.0})
     # the successor rule through the in-memory key (SignerMut): the last leaves, the wiped state after them
     for ai, alg in enumerate(ALGS if not quick else ALGS[1::3]):
         groups.append(lifetime_walk("c13/mem-end/%s/h5" % alg, alg, [(4, 5)], ["accept"], api="mem", start=32 - 4))
@@ -1667,6 +1692,8 @@ def c16_phases(ctx):
     cyc = [["accept"], ["reject", "accept"], ["crash_after", "accept"]]
     for ai, alg in enumerate(ALGS):
         groups.append(lifetime_walk("c16/%s/exhaust" % alg, alg, [([1, 2, 4, 8][ai % 4], 2)], cyc[ai % 3]))
+        if ai % 2 == 0 or not quick:
+            groups.append(lifetime_walk("c16/%s/exhaust-mem" % alg, alg, [([2, 4, 8, 1][ai % 4], 2)], ["accept"], api="mem"))
         if not quick:
             groups.append(lifetime_walk("c16/%s/exhaust2" % alg, alg, [(4, 2), ([1, 2, 4, 8][(ai + 1) % 4], 2)], cyc[(ai + 1) % 3]))
     # the wipe decision at the LAST leaf for shapes no walk can exhaust (total heights up to 200): arithmetic accessor
@@ -1811,8 +1838,26 @@ def c09_mixed_groups(ctx):
     return groups
 
 
+def c09_fast_verify_phase(ctx):
+    groups = []
+    for ai, alg in enumerate(ALGS if ctx["tier"] != "quick" else ALGS[1::3]):
+        name = "c09/fv/%s" % alg
+        cmds = [cmd_keygen(alg, [(4, 2), (2, 2)], seed_hex(name, alg))]
+        for rnd in range(2):
+            for mlen in (3, 40, 56, 57, 200):
+                m = msg_hex("%s/%d" % (name, mlen), mlen)
+                cmds.append(cmd_sign(alg, key_at("sk", 6), m, out={"sig": "s"}))
+                cmds.append(cmd_verify(alg, m, slot("s"), slot("pk")))
+            cmds.append({"op": "load", "alg": alg, "mem": "m", "key": key_at("sk", 6)})
+            cmds.append(cmd_sign(alg, None, msg_hex("%s/%d" % (name, 3), 3), api="mem", mem="m"))
+        groups.append({"name": name, "cmds": cmds, "cost": 3.0})
+    return {"tag": "c09-fast-verify-build", "variant": fv_variant(4, 64), "groups": groups, "controls": False,
+            "space": "fast_verify build: the ordinary sign / try_sign entry points stay functions of (key bytes, message), short and long messages"}
+
+
 def c09_phases(ctx):
     ph = api_phases(ctx, "c09")
+    ph.append(c09_fast_verify_phase(ctx))
     ph[0]["groups"] += c09_mixed_groups(ctx)
     ph[0]["groups"] += c09_parallel_groups(ctx)
     ph[0]["groups"] += c09_aux_history_groups(ctx)
